@@ -866,3 +866,155 @@ pub async fn stress_cmd(rep: &mut Report) {
     }
     let _ = std::fs::remove_dir_all(&root);
 }
+
+// ---------------------------------------------------------------------------
+// C20: an acknowledgement that has become possible stays possible.  Append A is written and
+// parked on its segment's sync watch (timer sync far away); its task is then kept from being
+// polled while append B rolls the segment over (the rollover's sync covers A).  At each later
+// writer position of Durability.tla's EmitLate table A's task is polled again and must
+// complete at once.
+
+const ROLL_HOOKS: [(&str, &str, u64); 6] = [
+    ("synced", "wt.roll.synced", 0),
+    ("created", "wt.roll.created", 1),
+    ("locked", "wt.roll.swapped", 1),
+    ("swapped", "wt.roll.old_installed", 1),
+    ("idle", "wt.roll.new_installed", 1),
+    ("written", "wt.reply", 1),
+];
+
+impl Ctl {
+    pub fn seen_count(&self, name: &str) -> usize {
+        self.inner.0.lock().unwrap().seen.iter().filter(|n| n.as_str() == name).count()
+    }
+}
+
+async fn lateack_case(ctl: &Ctl, k: usize, dir: std::path::PathBuf) -> Result<Value, String> {
+    use std::future::Future;
+    use std::task::Poll;
+    let cfg = DbCfg { sync_interval_ms: 2_000, min_sync_bytes: 1 << 30, max_batch: 100_000, ..DbCfg::small(1) };
+    let _ = std::fs::remove_dir_all(&dir);
+    let db = cfg.open(&dir)?;
+    let (ta, _) = mk_tx(&["A"], 70_000, 1, None);
+    let (tb, _) = mk_tx(&["B"], 70_000, 2, None);
+    let replies0 = ctl.seen_count("wt.reply");
+    let (to_a, a_rx) = std::sync::mpsc::channel::<()>();
+    let (a_tx, from_a) = std::sync::mpsc::channel::<String>();
+    let ctl_a = ctl.clone();
+    let db_a = db.clone();
+    let th = std::thread::spawn(move || {
+        let rt = tokio::runtime::Builder::new_current_thread().enable_all().build().unwrap();
+        rt.block_on(async move {
+            let mut fut = Box::pin(db_a.append_events(ta));
+            // poll until the writer thread has replied and the future waits on the sync watch
+            let t0 = std::time::Instant::now();
+            let mut after_reply = 0;
+            loop {
+                let p = std::future::poll_fn(|cx| Poll::Ready(fut.as_mut().poll(cx))).await;
+                if let Poll::Ready(r) = p {
+                    let _ = a_tx.send(format!("early:{}", r.is_ok()));
+                    return;
+                }
+                if ctl_a.seen_count("wt.reply") > replies0 {
+                    after_reply += 1;
+                    if after_reply >= 3 {
+                        break;
+                    }
+                }
+                if t0.elapsed() > Duration::from_secs(5) {
+                    let _ = a_tx.send("no-reply".into());
+                    return;
+                }
+                std::thread::sleep(Duration::from_millis(1));
+            }
+            let _ = a_tx.send("parked".into());
+            // this thread is the whole runtime: while it blocks here the task cannot be polled
+            let _ = a_rx.recv();
+            let t1 = std::time::Instant::now();
+            let r = tokio::time::timeout(Duration::from_millis(1_000), fut).await;
+            let _ = a_tx.send(match r {
+                Ok(Ok(_)) => format!("completed:{}", t1.elapsed().as_millis()),
+                Ok(Err(e)) => format!("failed:{e}"),
+                Err(_) => "hung".into(),
+            });
+        });
+    });
+    let wait = |rx: &std::sync::mpsc::Receiver<String>, ms: u64| rx.recv_timeout(Duration::from_millis(ms)).unwrap_or_else(|_| "harness-timeout".into());
+    let st = tokio::task::block_in_place(|| wait(&from_a, 8_000));
+    if st != "parked" {
+        let _ = to_a.send(());
+        let _ = th.join();
+        return Err(format!("append A did not park on its sync watch: {st}"));
+    }
+    // B rolls the segment over; step the writer to position k
+    ctl.arm(ROLL_HOOKS[0].1);
+    let hb = tokio::spawn({
+        let db = db.clone();
+        async move { db.append_events(tb).await.is_ok() }
+    });
+    let mut err = None;
+    if !ctl.wait_parked(ROLL_HOOKS[0].1, 5000).await {
+        err = Some("append B did not start a rollover (harness layout)".to_string());
+    }
+    let mut at = 0;
+    while err.is_none() && at < k {
+        ctl.arm(ROLL_HOOKS[at + 1].1);
+        ctl.release(ROLL_HOOKS[at].1);
+        if !ctl.wait_parked(ROLL_HOOKS[at + 1].1, 5000).await {
+            err = Some(format!("writer did not reach {}", ROLL_HOOKS[at + 1].1));
+        }
+        at += 1;
+    }
+    // now let A's task be polled again
+    let _ = to_a.send(());
+    let verdict = tokio::task::block_in_place(|| wait(&from_a, 4_000));
+    ctl.release_all();
+    let _ = tokio::time::timeout(Duration::from_secs(10), hb).await;
+    let _ = tokio::task::block_in_place(|| th.join());
+    if let Some(e) = err {
+        return Err(e);
+    }
+    if let Some(ms) = verdict.strip_prefix("completed:") {
+        Ok(json!({"writer_at": ROLL_HOOKS[k].0, "hook": ROLL_HOOKS[k].1, "ack_ms_after_resume": ms.parse::<u64>().unwrap_or(0)}))
+    } else {
+        Err(format!("append A was covered by the rollover's sync but its acknowledgement, looked at again with the writer at {:?}, is {verdict}", ROLL_HOOKS[k]))
+    }
+}
+
+pub async fn lateack_cmd(rep: &mut Report, table: &str) {
+    let rows = read_ndjson(table);
+    let ctl = Ctl::install();
+    let root = scratch("lateack");
+    let mut ks: BTreeSet<usize> = BTreeSet::new();
+    for r in &rows {
+        let k = ROLL_HOOKS.iter().position(|(w, _, s)| *w == r["wpc"].as_str().unwrap() && *s == r["seg"].as_u64().unwrap());
+        ks.insert(k.unwrap_or_else(|| panic!("table row outside the rollover hook chain: {r}")));
+    }
+    ks.insert(2); // harness-only position: index lock held
+    for k in ks {
+        for rep_i in 0..2 {
+            rep.eval(1);
+            let dir = root.join(format!("k{k}"));
+            let res = lateack_case(&ctl, k, dir.clone()).await;
+            ctl.release_all();
+            shutdown_all().await;
+            let _ = std::fs::remove_dir_all(&dir);
+            match res {
+                Ok(v) => {
+                    rep.class(format!("late-ack@{}", ROLL_HOOKS[k].0));
+                    if rep_i == 0 {
+                        rep.sample(v);
+                    }
+                }
+                Err(e) => {
+                    let key = if e.contains("covered by the rollover") { "c20:acknowledgement-missed" } else { "c20:lateack-schedule" };
+                    rep.violation(key, json!({"problem": e, "writer_at": ROLL_HOOKS[k].0}), json!({"k": k}));
+                    break;
+                }
+            }
+        }
+    }
+    sierradb::verif::clear();
+    let _ = std::fs::remove_dir_all(&root);
+    rep.set("table_rows", json!(rows.len()));
+}
